@@ -3,6 +3,8 @@ CONSTANTS
   MaxNodes = 12
   BaseSet <- DeepBases
   RunCfgSeq <- RunsDeep
+  Prods <- AllProds
+  KISet <- KIClassic
   EmitMin = 3
   EmitFrom = 3
   EmitMod = 32
